@@ -43,7 +43,7 @@ class _Env(object):
         self.enumerators = []    # [(name, value)]
         self.counters = {}
         for t in INTS:
-            self.types[t] = {"cat": "int", "stiff": FIXED}
+            self.types[t] = {"cat": "int", "stiff": FIXED, "signed": t.startswith("i")}
         for t in FLOATS:
             self.types[t] = {"cat": "float", "stiff": FIXED}
 
@@ -162,7 +162,7 @@ def _gen_typedef(tape, env):
     else:
         target = _scalar_builtin(tape, env)
     env.defs.append({"k": "typedef", "name": name, "type": target})
-    env.types[name] = dict(env.types[target])
+    env.types[name] = dict(env.types[target], typedef=True)
     env.order.append(name)
 
 
@@ -282,7 +282,11 @@ def _gen_struct(tape, env, want_stiff=None):
                     m["sizer"] = tape.pick(sizers)
                 else:
                     sname = fname()
-                    if f["signed_sizer"] and tape.chance(1, 3):
+                    tsizers = [] if env.cpp else env.names(lambda t: t["cat"] == "int" and t.get("typedef") and
+                                                           (f["signed_sizer"] or not t.get("signed")))
+                    if tsizers and tape.chance(1, 3):
+                        stype = tape.pick(tsizers)       # a typedef (chain) of an integer type
+                    elif f["signed_sizer"] and tape.chance(1, 3):
                         stype = tape.pick(["i8", "i16", "i32", "i64"])
                     else:
                         stype = tape.pick(["u8", "u16", "u32", "u64"] if f["wide"] else ["u8", "u16", "u32"])
@@ -319,7 +323,8 @@ def _m(name, type_, arr=None, n=None, sizer=None, opt=False):
 SHAPES = ["dyn-tail-optional", "nested-dyn-first", "nested-dyn-middle", "block-align-decreasing",
           "union-arm-struct-with-optional", "optional-wide-and-enum", "ext-arrays-split", "greedy-of-dynamic-structs",
           "limited-of-struct-with-optional", "nested-dyn-then-optional", "array-of-unions", "union-in-union",
-          "typedef-enum-arrays", "nested-limited-composites"]
+          "typedef-enum-arrays", "nested-limited-composites", "shared-sizer-bytes-last", "dyn-struct-embedded-twice",
+          "union-wide-arm-low-align", "optional-union", "typedef-chain-sizer"]
 
 
 def _gen_shape(tape, env):
@@ -330,9 +335,12 @@ def _gen_shape(tape, env):
     wide = tape.pick(["u32", "u64", "i64", "r64", "u32"])
     cnt = tape.pick(["u8", "u16", "u32"])
     needs = {"dyn-tail-optional": ["arr_dynamic"], "block-align-decreasing": ["arr_dynamic"],
-             "greedy-of-dynamic-structs": ["arr_dynamic", "arr_greedy"]}
+             "greedy-of-dynamic-structs": ["arr_dynamic", "arr_greedy"], "shared-sizer-bytes-last": ["bytes"],
+             "dyn-struct-embedded-twice": ["arr_dynamic"]}
     forbid = env.feats.get("_forbid", ())
     allowed = [x for x in SHAPES if not any(n in forbid for n in needs.get(x, ()))]
+    if env.cpp:     # the C++ full generator refuses arrays sharing a sizer and sizers of a typedef'd type
+        allowed = [x for x in allowed if x not in ("shared-sizer-bytes-last", "typedef-chain-sizer")]
     k = allowed[tape.draw(len(allowed))]
     if k == "dyn-tail-optional":
         _add_struct(env, [_m("f1", small, "dynamic"), _m("f2", small2, opt=True)], DYNAMIC)
@@ -402,6 +410,43 @@ def _gen_shape(tape, env):
         inner = _add_struct(env, [_m("f1", wide)], FIXED)
         mid = _add_struct(env, [_m("f1", inner, "limited", 3), _m("f2", small)], FIXED)
         _add_struct(env, [_m("f1", cnt), _m("f2", mid, "ext", sizer="f1"), _m("f3", mid), _m("f4", mid, opt=True)], DYNAMIC)
+    elif k == "shared-sizer-bytes-last":
+        _add_struct(env, [_m("f1", cnt), _m("f2", small, "ext", sizer="f1"), _m("f3", wide),
+                          _m("f4", "byte", "ext", sizer="f1")], DYNAMIC)
+    elif k == "dyn-struct-embedded-twice":
+        blob = _add_struct(env, [_m("f1", small2, "dynamic")], DYNAMIC)
+        _add_struct(env, [_m("f1", blob), _m("f2", "u8"), _m("f3", wide), _m("f4", blob), _m("f5", "u8"), _m("f6", small)],
+                    DYNAMIC)
+    elif k == "union-wide-arm-low-align":
+        inner = _add_struct(env, [_m("f1", "u32"), _m("f2", "u32"), _m("f3", tape.pick(["u32", "u8", "u16"]))], FIXED)
+        u = env.fresh("U")
+        env.defs.append({"k": "union", "name": u, "arms": [{"name": "a1", "type": tape.pick(["u64", "i64", "r64"]), "disc": 1},
+                                                            {"name": "a2", "type": inner, "disc": 2}]})
+        env.types[u] = {"cat": "union", "stiff": FIXED}
+        env.order.append(u)
+        _add_struct(env, [_m("f1", u), _m("f2", small), _m("f3", u, "limited", 2), _m("f4", u, opt=True)], FIXED)
+    elif k == "optional-union":
+        e = env.fresh("E")
+        env.defs.append({"k": "enum", "name": e, "members": [["%s_0" % e, 1 + tape.draw(3)], ["%s_1" % e, 0]]})
+        env.types[e] = {"cat": "enum", "stiff": FIXED}
+        env.order.append(e)
+        u = env.fresh("U")
+        env.defs.append({"k": "union", "name": u, "arms": [{"name": "a1", "type": small, "disc": 1},
+                                                            {"name": "a2", "type": e, "disc": 2},
+                                                            {"name": "a3", "type": tape.pick(["r32", "r64"]), "disc": 3}]})
+        env.types[u] = {"cat": "union", "stiff": FIXED}
+        env.order.append(u)
+        _add_struct(env, [_m("f1", u, opt=True), _m("f2", u), _m("f3", "u8")], FIXED)
+    elif k == "typedef-chain-sizer":
+        t0 = env.fresh("T")
+        env.defs.append({"k": "typedef", "name": t0, "type": cnt})
+        env.types[t0] = dict(env.types[cnt], typedef=True)
+        env.order.append(t0)
+        t1 = env.fresh("T")
+        env.defs.append({"k": "typedef", "name": t1, "type": t0})
+        env.types[t1] = dict(env.types[cnt], typedef=True)
+        env.order.append(t1)
+        _add_struct(env, [_m("f1", t1), _m("f2", small, "ext", sizer="f1"), _m("f3", t1)], DYNAMIC)
     elif k == "limited-of-struct-with-optional":
         item = _add_struct(env, [_m("f1", small, opt=True), _m("f2", "u8")], FIXED)
         _add_struct(env, [_m("f1", "u8"), _m("f2", item, "limited", 2), _m("f3", item, "fixed", 2), _m("f4", small)], FIXED)
